@@ -114,6 +114,46 @@ Theorem C16_slices_inside_received_and_safe : forall evs, Forall ev_ok evs -> Fo
 Proof. exact C16_safe_thm. Qed.
 Print Assumptions C16_slices_inside_received_and_safe.
 
+(* Acknowledgement of a QoS 1 PUBLISH the device sent (event `Pub pid sz`, real mqtt_publish): the PUBACK with its packet
+   id is consumed silently, the PUBLISH is marked complete, parsing goes on; (a PUBACK for an id never sent is
+   C16_unknown_ack_errors). *)
+Theorem C16_puback_of_device_publish : forall q pid rest,
+  0 <= pid < 65536 -> bytes_ok rest -> existsb (matches CT_PUBLISH (Some pid)) q = true ->
+  exists q', ack_first (matches CT_PUBLISH (Some pid)) q = Some q' /\
+    let d := parse_stream q (64 :: 2 :: pid / 256 :: pid mod 256 :: rest) in
+    let d' := parse_stream q' rest in
+    d_out d = d_out d' /\ d_q d = d_q d' /\ d_rest d = d_rest d' /\ d_stop d = d_stop d' /\ d_tight d = d_tight d'.
+Proof. exact C16_puback_accepted_thm. Qed.
+Print Assumptions C16_puback_of_device_publish.
+
+(* The hypothesis `d_tight = false` of the segmentation theorems, discharged by arithmetic: if the send queue has room for
+   k more acknowledgements (4 bytes + one queue record each) and the stream has at most 4k bytes (every packet that
+   queues an acknowledgement is at least 4 bytes long), the queue is never compacted while these bytes are handled. *)
+Theorem C16_room_no_compaction : forall q stream k,
+  bytes_ok stream -> room q k -> 0 <= k -> len stream <= 4 * k -> d_tight (parse_stream q stream) = false.
+Proof. exact C16_room_no_compaction_thm. Qed.
+Print Assumptions C16_room_no_compaction.
+
+Theorem C16_segmentation_independent_room : forall s segs1 segs2 k,
+  ready s -> Forall bytes_ok segs1 -> Forall bytes_ok segs2 -> concat segs1 = concat segs2 ->
+  room (mq s) k -> 0 <= k -> len (buf s ++ concat segs1) <= 4 * k ->
+  let r1 := run_from FIXED s (map Seg segs1) in let r2 := run_from FIXED s (map Seg segs2) in
+  rx_of (snd r1) = rx_of (snd r2) /\ qeq (mq (fst r1)) (mq (fst r2)) /\ halted (fst r1) = halted (fst r2) /\
+  (halted (fst r1) = false -> buf (fst r1) = buf (fst r2)).
+Proof. exact C16_segmentation_independent_room_thm. Qed.
+Print Assumptions C16_segmentation_independent_room.
+
+(* What a compaction is (the only thing `d_tight` flags): the acknowledgement did not fit, mqtt_mq_clean dropped the
+   completed messages at the head of the queue and the acknowledgement was queued behind the rest, or the session ends
+   with SEND_BUFFER_IS_FULL.  Which messages are "completed" depends on what has been sent so far, hence on the
+   segmentation: after a compaction the duplicate detection (QoS 2 retransmission, repeated PUBREL/SUBACK) may differ
+   between two segmentations of the same stream; memory safety and slices-inside (C16_slices_inside_received_and_safe)
+   do not depend on it. *)
+Theorem C16_compaction : forall ct pid sz q r, try_pack ct pid sz q = (r, true) ->
+  currsz q < sz /\ ((r = Some (clean q ++ [new_entry ct pid sz]) /\ sz <= currsz (clean q)) \/ (r = None /\ currsz (clean q) < sz)).
+Proof. exact C16_compaction_thm. Qed.
+Print Assumptions C16_compaction.
+
 (* the unrepaired code *)
 Theorem C16_old_code_refuted :
   rx_of (run OLD_RECV w_split) = [RxErr E_CONTROL_INVALID_FLAGS; RxReconnect] /\
@@ -138,6 +178,10 @@ Example C16_nonvacuous :
   (4 <=? currsz (mq s)) = true /\
   d_tight (parse_stream (mq s) p) = false /\
   snd (run_from FIXED s [Seg (firstn 4 p); Seg (firstn 3 (skipn 4 p)); Seg (skipn 7 p)]) =
-    [Msg 0 1 0 4 3 9 2 11 [116;47;49;111;110]; Sent 4 [64;2;0;7]].
-Proof. vm_compute. repeat split; reflexivity. Qed.
+    [Msg 0 1 0 4 3 9 2 11 [116;47;49;111;110]; Sent 4 [64;2;0;7]] /\
+  room (mq s) 80 /\
+  (* a device PUBLISH QoS 1 (id 9) and its PUBACK *)
+  snd (run_from FIXED s [Pub 9 10; Tick; Seg [64;2;0;9]; Seg [64;2;0;9]]) =
+    [Queued CT_PUBLISH 9 10; Sent CT_PUBLISH []].
+Proof. vm_compute. repeat split; try reflexivity; discriminate. Qed.
 Print Assumptions C16_nonvacuous.
